@@ -11,6 +11,13 @@ open XV
 inductive EncErr where | valueError
   deriving Repr, DecidableEq
 
+/-- line continuation: while `ld ≥ 256` emit `(od, 255)` — the address increment goes
+    with the first chunk, later chunks carry 0 — returning the remaining (od, ld) -/
+def splitLine : Nat → Nat → Nat → Bytes × Nat × Nat
+  | 0, od, ld => ([], od, ld)
+  | fuel + 1, od, ld =>
+    if ld ≥ 256 then let (bs, o, l) := splitLine fuel 0 (ld - 255); ([od, 255] ++ bs, o, l) else ([], od, ld)
+
 /-- emit `n` copies of a continuation pair while `d ≥ 256`, subtracting 255 each time -/
 def splitBig (pair : Bytes) : Nat → Nat → Bytes × Nat
   | 0, d => ([], d)
@@ -26,9 +33,9 @@ def encode15Go : Int → Int → List (Int × Int) → Except EncErr Bytes
     else if od < 0 then .error .valueError               -- chr(negative)
     else
       let (c1, od') := splitBig [255, 0] od.toNat od.toNat
-      let (c2, ld') := splitBig [0, 255] ld.toNat ld.toNat
+      let (c2, od'', ld') := splitLine ld.toNat od' ld.toNat
       do let tl ← encode15Go off line rest
-         pure (c1 ++ c2 ++ [od', ld'] ++ tl)
+         pure (c1 ++ c2 ++ [od'', ld'] ++ tl)
 
 def encode15 (first : Int) (m : List (Int × Int)) : Except EncErr Bytes := encode15Go 0 first m
 
@@ -40,8 +47,10 @@ def encode3Go : Int → Int → List (Int × Int) → Except EncErr Bytes
     let ld := line - prevLine
     let (c1, odN) : Bytes × Int := if od ≥ 256 then
         let (c, r) := splitBig [255, 0] od.toNat od.toNat; (c, (r : Int)) else ([], od)
-    let (c2, ldN) : Bytes × Int := if ld ≥ 256 then
-        let (c, r) := splitBig [0, 255] ld.toNat ld.toNat; (c, (r : Int)) else ([], ld)
+    if ld ≥ 256 ∧ odN < 0 then .error .valueError        -- bytearray([negative, 255])
+    else
+    let (c2, odN, ldN) : Bytes × Int × Int := if ld ≥ 256 then
+        let (c, o, r) := splitLine ld.toNat odN.toNat ld.toNat; (c, (o : Int), (r : Int)) else ([], odN, ld)
     if 0 ≤ ldN ∧ ldN ≤ 256 then
       if odN < 0 ∨ ldN = 256 then .error .valueError     -- bytearray([negative]) / bytearray([.., 256])
       else do let tl ← encode3Go off line rest
